@@ -111,7 +111,8 @@ def absorb(result, results, what="evaluator"):
             result.disagreements.append(d)
         if v == "impl-died":
             rec = "c08_param_recursion" in globals() and c08_param_recursion(r["case"]["rules"])
-            result.judge_failures.append({"what": "implementation process died (abort/stack overflow)" + (
+            result.judge_failures.append({"what": ("implementation did not answer within the time limit (hang)" if impl.get("rc") == "timeout" else
+                                                   "implementation process died (abort/stack overflow)") + (
                                               ": a parameterised rule calls itself" if rec else ""),
                                           "class": "c08-param-rule-recursion" if rec else "impl-died",
                                           "rules": r["case"]["rules"], "data": r["case"]["data"], "rc": impl.get("rc")})
@@ -805,6 +806,28 @@ def run_C04(ctx):
         g = gen.SG(ctx.seed * 5000011 + i)
         d = g.doc()
         bases.append((g.program(d), d, False))
+    # keys written in two spelling conventions, queried in a third: which spelling a query resolves to must not depend
+    # on what was resolved before it (the key-case fallback is per query)
+    CASE_DOC = {"Resources": {"b": {"Properties": {"Enabled": True, "maxSize": 3}}},
+                "Settings": {"bucketName": "alpha", "BucketName": "beta", "retentionDays": 1, "RetentionDays": 2},
+                "max_size": "m", "MaxSize": "M"}
+    CASE_LINES = ["Resources.b.properties.Enabled == true", "Settings.bucket_name == 'alpha'", "Settings.'bucket-name' == 'alpha'",
+                  "Settings.retention_days == 1", "this.'Max-Size' == 'M'", "maxSize == 'm'", "Resources.b.Properties.max_size == 3",
+                  "Settings.bucket_name == 'beta'", "resources.b.properties.enabled exists"]
+    for i in range(30 if ctx.thorough() else 10):
+        ls = rng.sample(CASE_LINES, rng.choice([2, 3, 4]))
+        rules_ = [{"name": "r0", "lets": [], "lines": [[l] for l in ls]}]
+        if rng.random() < 0.5:
+            rules_.append({"name": "r1", "lets": [], "lines": [[l] for l in rng.sample(CASE_LINES, 2)]})
+        bases.append(({"lets": [], "rules": rules_}, CASE_DOC, False))
+    # rules that refer to each other in a cycle: an error in every order on the current tree (the class is then
+    # discarded); if a cycle ever evaluates, its verdicts must not depend on the order of the rules
+    for body in (["b or x == 1"], ["b or x == 2"], ["b", "x == 1"], ["not b or x == 1"]):
+        for third in (["b"], ["a"], ["not a or b"]):
+            bases.append(({"lets": [], "rules": [{"name": "a", "lets": [], "lines": [[alt for alt in l.split(" or ")] for l in body]},
+                                                  {"name": "b", "lets": [], "lines": [["a"]]},
+                                                  {"name": "c", "lets": [], "lines": [[alt for alt in l.split(" or ")] for l in third]}]},
+                          {"x": 1}, False))
     for p, d, known in bases:
         data = json.dumps(d)
         bi = len(cases)
@@ -1148,13 +1171,32 @@ def run_C06(ctx):
     return res
 
 
-TEST_RULES = {"ok": "rule chk { x == 1 }\nrule other { y exists }\n", "bad": "rule chk { x == \n", "empty": "# none\n"}
+TEST_RULES = {"ok": "rule chk { x == 1 }\nrule other { y exists }\n", "bad": "rule chk { x == \n", "empty": "# none\n",
+              # one rule name defined twice under different guards: the name evaluates to a LIST of statuses
+              "dup": "rule chk when x == 1 { y == 2 }\nrule chk when x == 2 { y exists }\nrule other { y exists }\n"}
 
 
-def test_file_text(rng, kind):
+def test_file_text(rng, kind, rk="ok"):
     """returns (text, [mismatch per case]) or (text, None) for an unparsable file"""
     if kind == "unparsable":
         return "- name: [unclosed\n  input: {", None
+    if rk == "dup":
+        # statuses of `chk` per input: x=1 -> [FAIL, SKIP], x=2 -> [SKIP, PASS], x=3 -> [SKIP, SKIP]; an expectation is met
+        # when SOME evaluation of the name has the expected status, SKIP only when ALL of them are SKIP
+        ev = {1: ["FAIL", "SKIP"], 2: ["SKIP", "PASS"], 3: ["SKIP", "SKIP"]}
+        specs, mism = [], []
+        for k in range(rng.choice([1, 2, 3])):
+            x = rng.choice([1, 2, 3])
+            want_mm = kind == "mismatch" and (k == 0 or rng.random() < 0.5)
+            opts = [e for e in ("PASS", "FAIL", "SKIP")
+                    if ((all(v == "SKIP" for v in ev[x]) if e == "SKIP" else e in ev[x]) != want_mm)]
+            if not opts:
+                opts = ["PASS", "FAIL", "SKIP"]
+            e = rng.choice(opts)
+            met = all(v == "SKIP" for v in ev[x]) if e == "SKIP" else e in ev[x]
+            specs.append({"name": "case%d" % k, "input": {"x": x, "y": 1}, "expectations": {"rules": {"chk": e}}})
+            mism.append(not met)
+        return json.dumps(specs), mism
     specs, mism = [], []
     for k in range(rng.choice([1, 2, 3])):
         x = rng.choice([1, 2])
@@ -1177,12 +1219,12 @@ def run_C06_test(ctx, res, rng):
     jobs, meta = [], []
     # every ORDERED pair of file classes, in every format and both layouts (a later file must not erase an earlier result)
     forced = []
-    fcls = [("ok", "match"), ("ok", "mismatch"), ("ok", "unparsable"), ("bad", "match"), ("empty", "match")]
+    fcls = [("ok", "match"), ("ok", "mismatch"), ("ok", "unparsable"), ("bad", "match"), ("empty", "match"), ("dup", "match"), ("dup", "mismatch")]
     for fmt in ("plain", "json", "yaml", "junit"):
         for a in fcls:
             for b in fcls:
                 forced.append(("dir", fmt, [a[0], b[0]], [[a[1]], [b[1]]]))
-        for rk in ("ok", "bad", "empty"):
+        for rk in ("ok", "bad", "empty", "dup"):
             for k1 in ("match", "mismatch", "unparsable"):
                 for k2 in ("match", "mismatch", "unparsable"):
                     forced.append(("single", fmt, [rk], [[k1, k2]]))
@@ -1192,32 +1234,32 @@ def run_C06_test(ctx, res, rng):
         fmt = fz[1] if fz else rng.choice(["plain", "json", "yaml", "junit"])
         oargs = [] if fmt == "plain" else ["-o", fmt]
         if layout == "single":
-            rk = fz[2][0] if fz else rng.choice(["ok", "ok", "ok", "bad", "empty"])
+            rk = fz[2][0] if fz else rng.choice(["ok", "ok", "ok", "bad", "empty", "dup"])
             kinds = fz[3][0] if fz else [rng.choice(["match", "match", "mismatch", "unparsable"]) for _ in range(rng.choice([1, 1, 2]))]
             files = {"r.guard": TEST_RULES[rk]}
             tfs = []
             for k, kind in enumerate(kinds):
-                txt, mism = test_file_text(rng, kind)
+                txt, mism = test_file_text(rng, kind, rk)
                 files["t/t%d.yaml" % k] = txt
                 tfs.append({"k": "unparsable"} if mism is None else {"k": "specs", "mismatch": mism})
             model = {"cmd": "test-single-plain" if fmt == "plain" else "test-single-structured",
-                     "rules": {"k": rk if rk != "ok" else "ok", "files": tfs}}
+                     "rules": {"k": "ok" if rk == "dup" else rk, "files": tfs}}
             jobs.append({"argv": ["test", "-r", "{DIR}/r.guard", "-t", "{DIR}/t", "-a"] + oargs, "files": files})
             meta.append((layout, fmt, [rk], [kinds], model))
         else:
             rks, allk, files, mrules = [], [], {}, []
             for j in range(len(fz[2]) if fz else rng.choice([1, 2, 3])):
-                rk = fz[2][j] if fz else rng.choice(["ok", "ok", "bad", "empty"])
+                rk = fz[2][j] if fz else rng.choice(["ok", "ok", "bad", "empty", "dup"])
                 kinds = fz[3][j] if fz else [rng.choice(["match", "match", "mismatch", "unparsable"]) for _ in range(rng.choice([1, 2]))]
                 files["f%d.guard" % j] = TEST_RULES[rk]
                 tfs = []
                 for k, kind in enumerate(kinds):
-                    txt, mism = test_file_text(rng, kind)
+                    txt, mism = test_file_text(rng, kind, rk)
                     files["tests/f%d_%d.yaml" % (j, k)] = txt
                     tfs.append({"k": "unparsable"} if mism is None else {"k": "specs", "mismatch": mism})
                 rks.append(rk)
                 allk.append(kinds)
-                mrules.append({"k": rk, "files": tfs})
+                mrules.append({"k": "ok" if rk == "dup" else rk, "files": tfs})
             model = {"cmd": "test-dir-plain" if fmt == "plain" else "test-dir-structured", "rules": mrules}
             jobs.append({"argv": ["test", "-d", "{DIR}"] + oargs, "files": files})
             meta.append((layout, fmt, rks, allk, model))
@@ -1229,8 +1271,8 @@ def run_C06_test(ctx, res, rng):
         res.stats["test-exit:%s" % code] += 1
         res.stats["test-layout:%s/%s" % (layout, fmt)] += 1
         res.nontrivial.add(("test", layout, fmt, tuple(rks), json.dumps(allk)))
-        parse_ok = all(r != "bad" for r in rks) and all(k != "unparsable" for r, ks in zip(rks, allk) for k in ks if r == "ok")
-        mismatch = any(k == "mismatch" for r, ks in zip(rks, allk) for k in ks if r == "ok")
+        parse_ok = all(r != "bad" for r in rks) and all(k != "unparsable" for r, ks in zip(rks, allk) for k in ks if r in ("ok", "dup"))
+        mismatch = any(k == "mismatch" for r, ks in zip(rks, allk) for k in ks if r in ("ok", "dup"))
         what = None
         if (code == 0) != (parse_ok and not mismatch):
             what = "exit 0 must mean all files parse and every expectation matches (parse_ok=%s mismatch=%s exit=%s)" % (parse_ok, mismatch, code)
@@ -1578,6 +1620,10 @@ def run_C17(ctx):
         pname = (lambda j: "p%d.json" % j) if i % 2 else (lambda j: "pdir%d/params.json" % j)    # same base name in several directories
         for j, pdoc in enumerate(params):
             files[pname(j)] = json.dumps(pdoc)
+            if i % 5 == 3 and j == len(params) - 1:
+                # a parameter file reached through a symbolic link is a parameter file
+                files["store/real%d.json" % j] = files[pname(j)]
+                files[pname(j)] = {"symlink": "store/real%d.json" % j}
             iargs += ["-i", "{DIR}/" + pname(j)]
         base = len(jobs)
         jobs.append({"argv": ["validate", "-r", "{DIR}/r.guard", "-d", "{DIR}/d.json"] + iargs + flags, "files": files})
@@ -1752,6 +1798,19 @@ def run_C16(ctx):
                 jobs.append({"argv": ["test", "-d", "{DIR}"] + oargs,
                              "files": {"x.guard": s["rules"], "tests/x_tests.yaml": tests}})
             jown.append((si, fmt))
+        if len(s["specs"]) >= 2:
+            # the same cases split over two test files of one rules file (in both orders of the halves): the verdict of
+            # the run is the verdict of all its files, whichever comes last
+            h = len(s["specs"]) // 2
+            for tag, first, second in (("split", s["specs"][:h], s["specs"][h:]), ("split-rev", s["specs"][h:], s["specs"][:h])):
+                fl = {"x.guard": s["rules"], "t/a_tests.json": json.dumps(first), "t/b_tests.json": json.dumps(second)}
+                fd = {"x.guard": s["rules"], "tests/x_a_tests.json": json.dumps(first), "tests/x_b_tests.json": json.dumps(second)}
+                for fmt in ("plain", "json"):
+                    oargs = [] if fmt == "plain" else ["-o", fmt]
+                    jobs.append({"argv": ["test", "-r", "{DIR}/x.guard", "-t", "{DIR}/t", "-a"] + oargs, "files": fl})
+                    jown.append((si, tag + "-" + fmt))
+                    jobs.append({"argv": ["test", "-d", "{DIR}"] + oargs, "files": fd})
+                    jown.append((si, tag + "-dir-" + fmt))
     outs = dict(zip(jown, vlib.run_cli_many(jobs)))
     # model classification from the validate statuses
     mreqs, mown = [], []
@@ -1823,6 +1882,16 @@ def run_C16(ctx):
                     res.disagreements.append(dict(info, what="test classification: model %s vs binary %s (case %d)" % (mc, tc, k)))
         if (oj["code"] == 7) != any_failed or (oj["code"] == 0) != (not any_failed):
             res.judge_failures.append(dict(info, what="exit code %s but some expectation mismatched = %s" % (oj["code"], any_failed), **{"class": "c16-exit"}))
+        # the cases split over two test files: same exit code
+        if oj["code"] in (0, 7):
+            for key in ("split-plain", "split-json", "split-dir-plain", "split-dir-json", "split-rev-plain", "split-rev-json",
+                        "split-rev-dir-plain", "split-rev-dir-json"):
+                if (si, key) in outs:
+                    res.stats["c16-split-compared"] += 1
+                    if outs[(si, key)]["code"] != oj["code"]:
+                        res.judge_failures.append(dict(info, what="the same test cases split over two test files (%s) exit %s, in one file %s" % (
+                            key, outs[(si, key)]["code"], oj["code"]), **{"class": "c16-split"}))
+                        break
         # formats agree
         oy, op_, ox = outs[(si, "yaml")], outs[(si, "plain")], outs[(si, "junit")]
         try:
@@ -1924,6 +1993,8 @@ def run_C12(ctx):
             d = gen.G(ctx.seed * 31 + i * 7 + k).doc()
             d["m"] = {"a": {"x": 1}, "b": {"x": 2}} if rng.random() < 0.7 else {"a": {"x": 1}}
             docs.append(d)
+        if ndocs >= 2 and rng.random() < 0.35:
+            docs[1] = json.loads(json.dumps(docs[0]))      # two copies of one template (dev / prod): same findings in both
         nr = rng.choice([1, 2, 3])
         rfiles = []
         for k in range(nr):
@@ -1961,6 +2032,12 @@ def run_C12(ctx):
             s["samebase_ref"] = add({"argv": ["validate"] + rargs([0, 1]) + dargs(range(ndocs)) + sflags, "files": files})
         s["payload"] = add({"argv": ["validate", "--payload"] + sflags, "files": {},
                             "stdin": json.dumps({"rules": rfiles, "data": [json.dumps(d) for d in docs]})})
+        if ndocs >= 2:
+            # SARIF and JUnit renderings of the batch vs each data file validated alone (all rules files)
+            for fmt in ("sarif", "junit"):
+                fl = ["--structured", "-o", fmt, "-S", "none"]
+                s["batch_" + fmt] = add({"argv": ["validate"] + rargs(range(nr)) + dargs(range(ndocs)) + fl, "files": files})
+                s["single_" + fmt] = [add({"argv": ["validate"] + rargs(range(nr)) + dargs([b]) + fl, "files": files}) for b in range(ndocs)]
         scen.append(s)
     outs = vlib.run_cli_many(jobs)
 
@@ -2027,6 +2104,51 @@ def run_C12(ctx):
             if ra != rb or outs[s["samebase"]]["code"] != outs[s["samebase_ref"]]["code"]:
                 res.judge_failures.append(dict(info, what="two rules files with the same base name in different directories give another result than the same files under distinct names (exit %s vs %s)" % (
                     outs[s["samebase"]]["code"], outs[s["samebase_ref"]]["code"]), **{"class": "c12-same-base-name"}))
+        # SARIF / JUnit: what the batch says about a data file is what a run on that file alone says
+        if "batch_sarif" in s:
+            def sarif_by_file(o):
+                try:
+                    out_ = {}
+                    for run in json.loads(o["stdout"])["runs"]:
+                        for r_ in run.get("results", []):
+                            loc = (r_.get("locations") or [{}])[0].get("physicalLocation", {})
+                            f_ = os.path.basename(loc.get("artifactLocation", {}).get("uri", "?"))
+                            out_.setdefault(f_, []).append((r_.get("ruleId"), r_.get("level"), (r_.get("message") or {}).get("text"),
+                                                            json.dumps(loc.get("region"), sort_keys=True)))
+                    return {k_: sorted(v_) for k_, v_ in out_.items()}
+                except Exception:
+                    return None
+
+            def junit_by_file(o):
+                import xml.etree.ElementTree as ET
+                try:
+                    root = ET.fromstring(o["stdout"])
+                    out_ = {}
+                    for ts in root.iter("testsuite"):
+                        attrs = {k_: v_ for k_, v_ in ts.attrib.items() if k_ not in ("time", "id")}
+                        attrs["name"] = os.path.basename(attrs.get("name", ""))
+                        cases_ = sorted((tc.attrib.get("name"), tc.attrib.get("status"), sorted(ch.tag for ch in tc)) for tc in ts.iter("testcase"))
+                        out_[attrs["name"]] = (sorted(attrs.items()), cases_)
+                    return out_
+                except Exception:
+                    return None
+            for fmt, fn in (("sarif", sarif_by_file), ("junit", junit_by_file)):
+                bo = outs[s["batch_" + fmt]]
+                so = [outs[j] for j in s["single_" + fmt]]
+                if bo["code"] not in (0, 19) or any(o_["code"] not in (0, 19) for o_ in so):
+                    continue
+                bf = fn(bo)
+                res.stats["c12-%s-compared" % fmt] += 1
+                for b, o_ in enumerate(so):
+                    sf = fn(o_)
+                    name = "d%d.json" % b
+                    if bf is None or sf is None:
+                        res.judge_failures.append(dict(info, what="%s output unreadable" % fmt, **{"class": "c12-" + fmt}))
+                        break
+                    if bf.get(name) != sf.get(name):
+                        res.judge_failures.append(dict(info, what="%s: the batch reports %s for %s, the file validated alone gives %s" % (
+                            fmt, str(bf.get(name))[:300], name, str(sf.get(name))[:300]), **{"class": "c12-" + fmt}))
+                        break
         # failure iff some pair fails
         any_fail = any(c == 19 for c in single_codes.values())
         all_ok = all(c in (0, 19) for c in single_codes.values())
@@ -2796,12 +2918,28 @@ def run_C11(ctx):
                                        "class": "c11-typing", "data": text, "loader": loader, "got": got, "want": ref[i], "json": json.dumps(docs[i])})
     # a document equals itself written as a Guard literal (correspondence with the model as well)
     cases = []
-    for d in docs[: (1500 if ctx.thorough() else 150)]:
+    spell = []      # (index of the JSON case, index of the same document in another serialisation, serialisation)
+    for di, d in enumerate(docs[: (1500 if ctx.thorough() else 150)]):
         lt = lit_text(d)
         if lt is not None:
-            cases.append({"rules": "rule same { this == %s }\n" % lt, "data": json.dumps(d)})
+            rules_ = "rule same { this == %s }\n" % lt
+            bi = len(cases)
+            cases.append({"rules": rules_, "data": json.dumps(d)})
+            # the same comparison through the REAL entry point (run_checks) for every serialisation of the document:
+            # the hooks above read typed values through the loaders, this goes through the library's own choice of loader
+            for (i2, sname, loader, text) in meta:
+                if i2 == di and loader == "run_checks" and sname != "json-compact":
+                    spell.append((bi, len(cases), sname))
+                    cases.append({"rules": rules_, "data": text})
     results = vlib.correspond(cases, ctx.hp, ctx.mp)
     absorb(res, results, "C11 literal round trip")
+    for bi, k, sname in spell:
+        a, b = results[bi]["impl"], results[k]["impl"]
+        res.stats["c11-entry-point:" + sname] += 1
+        if (a.get("kind"), a.get("rules"), a.get("err")) != (b.get("kind"), b.get("rules"), b.get("err")):
+            res.judge_failures.append({"what": "run_checks gives %s for the document as JSON and %s for the same document as %s" % (
+                                           {k_: a.get(k_) for k_ in ("kind", "rules", "err")}, {k_: b.get(k_) for k_ in ("kind", "rules", "err")}, sname),
+                                       "class": "c11-entry-point", "rules": results[k]["case"]["rules"], "data": results[k]["case"]["data"]})
     for r in results:
         if r["impl"].get("kind") == "ok" and r["impl"]["rules"] != [["same", "PASS"]]:
             res.judge_failures.append({"what": "a document does not equal itself written as a Guard value literal: %s" % r["impl"]["rules"],
@@ -3306,6 +3444,14 @@ def run_C19(ctx):
                     t2["Resources"][rn]["Properties"][p] = fresh
                     mut_jobs.append({"id": len(mut_jobs), "op": "case", "rules": o["stdout"], "data": json.dumps(t2)})
                     mut_meta.append((i, r["Type"].replace("::", "_").lower(), rn, p, v, fresh))
+                    # the same spelling with another TYPE (true -> "true", 100 -> "100", "7" -> 7) is another value too
+                    retyped = ("true" if v else "false") if isinstance(v, bool) else (str(v) if isinstance(v, int) else
+                              (int(v) if v.isdigit() and len(v) < 15 and str(int(v)) == v else None))
+                    if retyped is not None and not any(type(x) == type(retyped) and x == retyped for x in same_tp):
+                        t3 = json.loads(json.dumps(t))
+                        t3["Resources"][rn]["Properties"][p] = retyped
+                        mut_jobs.append({"id": len(mut_jobs), "op": "case", "rules": o["stdout"], "data": json.dumps(t3)})
+                        mut_meta.append((i, r["Type"].replace("::", "_").lower(), rn, p, v, retyped))
         if len(res.samples) < 2:
             res.add_sample({"template": t, "emitted": o["stdout"], "verdicts": obs["rules"]})
     mresp2 = ctx.hp.map(mut_jobs)
@@ -3325,9 +3471,9 @@ register("C19", ["Guard.Properties.C19"], run_C19, needs_cli=True)
 
 # =============================================================================== C05
 
-C05_ENVS = [{}, {"LANG": "C", "LC_ALL": "C"}, {"TZ": "Asia/Tokyo", "LC_ALL": "C.UTF-8"},
-            {"HOME": "/nonexistent", "COLUMNS": "40", "TERM": "dumb"}, {"RUST_BACKTRACE": "1", "USER": "someone-else"},
-            {"TZ": "America/Los_Angeles", "PWD": "/"}, {"LANG": "tr_TR.UTF-8"}]
+C05_ENVS = [{}, {"TZ": "Asia/Tokyo", "LC_ALL": "C.UTF-8"}, {"TZ": "America/Los_Angeles", "PWD": "/", "LANG": "C", "LC_ALL": "C"},
+            {"HOME": "/nonexistent", "COLUMNS": "40", "TERM": "dumb", "TZ": "UTC"}, {"RUST_BACKTRACE": "1", "USER": "someone-else", "TZ": "PST8PDT"},
+            {"LANG": "tr_TR.UTF-8"}]
 
 
 def c05_norm(kind, text):
@@ -3382,6 +3528,11 @@ def c05_scenarios(ctx, n):
                      ("dir-a-json", "bytes", ["validate", "-r", "{DIR}/rd", "-d", "{DIR}/dd", "-a", "--structured", "-o", "json", "-S", "none"])]
             if cfn:
                 modes.append(("cfn-plain", "plain", base + ["-S", "all", "-t", "CFNTemplate"]))
+            if len(docs) > 1:
+                # the same data files in the opposite order: what is reported per file must not depend on what was
+                # evaluated before it in the process
+                da_rev = sum([["-d", "{DIR}/dd/d%d.json" % k] for k in reversed(range(len(docs)))], [])
+                modes.append(("plain-rev", "plain", ["validate"] + ra + da_rev + ["-S", "all"]))
             out.append({"kind": kind, "files": files, "modes": modes, "rules": "\n---\n".join(rfiles),
                         "data": json.dumps(docs)})
         elif kind == "test":
@@ -3416,6 +3567,30 @@ def c05_scenarios(ctx, n):
             txt = json.dumps(t)
             modes = [("rulegen", "plain", ["rulegen", "-t", "{DIR}/t.json"])]
             out.append({"kind": kind, "files": {"t.json": txt}, "modes": modes, "rules": "", "data": txt})
+    # rules that refer to other rules by name, over data files on which the referenced rule PASSes, FAILs and SKIPs,
+    # in both orders (a memoised rule status must not survive into the next data file)
+    dep_rules = ("rule base when Resources exists {\nResources.*.Properties.Size > 5\n}\nrule dep {\nbase\n}\nrule ndep {\nnot base\n}\n"
+                 "rule dep2 when base {\nx == 1\n}\nrule dep3 {\nbase or x == 2\n}\n")
+    dep_docs = [{"Resources": {"a": {"Properties": {"Size": 10}}}, "x": 1}, {"Resources": {"a": {"Properties": {"Size": 1}}}, "x": 1}, {"x": 1},
+                {"Resources": {"a": {"Properties": {"Size": 7}}, "b": {"Properties": {"Size": 2}}}, "x": 2}]
+    for order in ([0, 1, 2], [1, 0], [2, 0, 1], [3, 2], [0, 3, 1, 2]):
+        files = {"r.guard": dep_rules}
+        for k in order:
+            files["dd/d%d.json" % k] = json.dumps(dep_docs[k])
+        fw = sum([["-d", "{DIR}/dd/d%d.json" % k] for k in order], [])
+        bw = sum([["-d", "{DIR}/dd/d%d.json" % k] for k in reversed(order)], [])
+        modes = [("plain", "plain", ["validate", "-r", "{DIR}/r.guard"] + fw + ["-S", "all"]),
+                 ("plain-rev", "plain", ["validate", "-r", "{DIR}/r.guard"] + bw + ["-S", "all"]),
+                 ("s-json", "bytes", ["validate", "-r", "{DIR}/r.guard"] + fw + ["--structured", "-o", "json", "-S", "none"])]
+        out.append({"kind": "validate", "files": files, "modes": modes, "rules": dep_rules, "data": json.dumps([dep_docs[k] for k in order])})
+    # time stamps of every shape through parse_epoch: the result (a value or an error) must not depend on the time zone
+    for k, stamp in enumerate(["2024-01-01T00:00:00Z", "2024-01-01T00:00:00", "2024-01-01 00:00:00", "2024-06-30T12:30:00+09:00",
+                               "2024-01-01", "1700000000", "Mon, 01 Jan 2024 00:00:00 GMT"]):
+        rules = "let ep = parse_epoch(t)\nrule e {\n%ep > 1000\n}\nrule f {\n%ep < 1704070000\n}\n"
+        base = ["validate", "-r", "{DIR}/r.guard", "-d", "{DIR}/t.json"]
+        modes = [("plain", "plain", base + ["-S", "all"]), ("s-json", "bytes", base + ["--structured", "-o", "json", "-S", "none"])]
+        out.append({"kind": "validate", "files": {"r.guard": rules, "t.json": json.dumps({"t": stamp})}, "modes": modes,
+                    "rules": rules, "data": json.dumps({"t": stamp})})
     # multi-line templates with several failing resources: the console reporter prints a source excerpt per failing
     # check, in the (hash) order of the resources - the excerpts must not depend on that order (fix 519a7b9)
     for k in range(3):
@@ -3509,6 +3684,25 @@ def run_C05(ctx):
                 res.nontrivial.add(hashlib.sha1((s["kind"] + mode + o0["stdout"]).encode()).hexdigest())
             if si < 3 and mode in ("s-json", "plain", "json"):
                 res.add_sample({"kind": s["kind"], "mode": mode, "exit": o0["code"], "stdout_head": o0["stdout"][:200]})
+    # the order of the data files must not change what is reported for each of them
+    for si, s in enumerate(scen):
+        ms = {m[0]: m for m in s["modes"]}
+        if "plain-rev" in ms and "plain" in ms:
+            a, b = fresh[(si, "plain", 0)], fresh[(si, "plain-rev", 0)]
+            if a["code"] not in (0, 19) or b["code"] not in (0, 19):
+                # an evaluation error aborts the run at the file that raises it: what was printed before legitimately
+                # depends on the order
+                res.stats["c05-data-order-skipped-error"] += 1
+                continue
+            res.stats["c05-data-order-compared"] += 1
+            if str(a["code"]) != str(b["code"]) or c05_norm("plain", a["stdout"]) != c05_norm("plain", b["stdout"]):
+                la, lb = c05_norm("plain", a["stdout"]).split("\n"), c05_norm("plain", b["stdout"]).split("\n")
+                k = next((j for j in range(min(len(la), len(lb))) if la[j] != lb[j]), min(len(la), len(lb)))
+                res.judge_failures.append({"rules": s["rules"], "data": s["data"], "argv": ms["plain-rev"][2], "files": s["files"],
+                                           "mode": "plain-rev", "kind": s["kind"],
+                                           "what": "validate reports differ when the data files are given in the opposite order: exit %s vs %s; first differing line %r vs %r" % (
+                                               a["code"], b["code"], la[k][:160] if k < len(la) else None, lb[k][:160] if k < len(lb) else None),
+                                           "class": "c05-data-order"})
     res.extra["repeats"] = {"fresh_processes": reps, "in_process": reps, "environments": C05_ENVS[:reps]}
     return res
 
@@ -3903,7 +4097,7 @@ def run_C08(ctx):
     return res
 
 
-register("C08", ["Guard.Properties.C08"], run_C08, needs_cli=True)
+register("C08", ["Guard.Properties.C08", "Guard.Properties.C08Eval"], run_C08, needs_cli=True)
 
 
 # =============================================================================== C10
